@@ -69,7 +69,50 @@ def vstack_stub(blocks, **kw):
     return DenseCSR(_np.concatenate([_dense(b) for b in blocks], axis=0))
 
 
-_NAMES = {"csr_matrix": csr_stub, "sparsematrix": csr_stub, "bmat": bmat_stub, "vstack": vstack_stub}
+class LilStub:
+    """assumed contract of scipy.sparse.lil_matrix as used by the constraint items: a zero-initialised 2-d
+    table with numpy fancy-index assignment, reshape and conversion to csr"""
+
+    def __init__(s, arg):
+        if isinstance(arg, _np.ndarray):
+            s.a = arg
+        else:
+            s.a = _np.empty(tuple(int(k) for k in arg), dtype=object)
+            s.a[...] = LP()
+
+    shape = property(lambda s: s.a.shape)
+
+    def __setitem__(s, key, value):
+        if isinstance(value, (DenseCSR, LilStub)):
+            value = value.a
+        s.a[key] = value
+
+    def __getitem__(s, key):
+        return s.a[key]
+
+    def reshape(s, *shape):
+        return LilStub(s.a.reshape(*shape))
+
+    def tocsr(s):
+        return DenseCSR(s.a)
+
+    def toarray(s):
+        return s.a
+
+
+def lil_stub(arg, **kw):
+    return LilStub(arg)
+
+
+def eye_stub(n, **kw):
+    a = _np.empty((n, n), dtype=object)
+    for i in range(n):
+        for j in range(n):
+            a[i, j] = LP.const(1 if i == j else 0)
+    return DenseCSR(a)
+
+
+_NAMES = {"csr_matrix": csr_stub, "sparsematrix": csr_stub, "bmat": bmat_stub, "vstack": vstack_stub, "lil_matrix": lil_stub, "eye": eye_stub}
 
 
 @contextlib.contextmanager
@@ -82,7 +125,7 @@ def bound(prefix="felupe"):
         if name == prefix or name.startswith(prefix + "."):
             for nm, stub in _NAMES.items():
                 obj = getattr(mod, nm, None)
-                if obj is not None and obj in (_sp.csr_matrix, _sp.bmat, _sp.vstack):
+                if obj is not None and any(obj is x for x in (_sp.csr_matrix, _sp.bmat, _sp.vstack, _sp.lil_matrix, _sp.eye)):
                     saved.append((mod, nm, obj))
                     setattr(mod, nm, stub)
                     symnp.INVENTORY.add("scipy.sparse." + obj.__name__)
